@@ -353,7 +353,7 @@ def run_cases(tag: str, imports: str, defs: str, cases: Sequence[str],
     (agrees, flag) : bool * bool; the cases whose flag is true are returned in
     "flag" - used for "outside the model" accounting). Returns the indexes of
     the cases that evaluate to false (and build errors, which are harness bugs)."""
-    d = CASES_DIR / tag
+    d = CASES_DIR / f"{tag}_{os.getpid()}"      # per process: concurrent runs of one check must not collide
     if d.exists():
         shutil.rmtree(d)
     d.mkdir(parents=True)
@@ -403,7 +403,7 @@ def run_cases(tag: str, imports: str, defs: str, cases: Sequence[str],
 def eval_terms(tag: str, imports: str, defs: str, terms: Sequence[str]) -> list[str]:
     """Evaluate terms with vm_compute and return Coq's printed answers (for
     replays of disagreeing cases)."""
-    d = CASES_DIR / (tag + "_eval")
+    d = CASES_DIR / f"{tag}_eval_{os.getpid()}"
     if d.exists():
         shutil.rmtree(d)
     d.mkdir(parents=True)
